@@ -97,6 +97,11 @@ def array_cfg(rng, tier, prop, families):
         cfg["dtypes"] = cfg["dtypes"] + ["f4"]
     if rng.random() < 0.1:
         cfg["inf_rate"] = 0.05
+    if rng.random() < 0.15:
+        # one global option away from its default: the claimed properties do not depend on them
+        k, v = rng.choice([["op.reindex", False], ["op.broadcast", False], ["indexing.broadcast", False], ["align.join", "inner"],
+                           ["indexing.by", "position"], ["display.max", 2]])
+        cfg["options"] = {k: v}
     if rng.random() < 0.08:
         k_ = len(cfg["dim_names"])
         cfg["dim_names"] = (V.ODD_DIM_NAMES + ["x"])[:max(2, k_)]
